@@ -7,6 +7,7 @@ CONSTANTS
   MaxReloads = 0
   TailN = 3
   BumpOnTrim = FALSE
+  StalePrevCount = FALSE
   AllowOlder = FALSE
 SPECIFICATION Spec
 INVARIANTS PublishedIsFilter
